@@ -24,6 +24,7 @@ SIG_WS_OUTFLOW = 'ws-not-collapsed-across-inline-in-out-of-flow-box'
 SIG_GEN_BLOCK = 'generated-content-of-non-inline-pseudo-not-processed'
 SIG_BLOCKIFY = 'blockification-drops-inner-display-type'
 SIG_FLEX_TABLE = 'inline-table-flex-item-loses-table-wrapper'
+SIG_LOST_FLOAT = 'lost:word-before-float-at-line-break'
 
 
 def bl(b):
@@ -87,7 +88,7 @@ def gen_ws_node(rng, d, pws):
 
 def stream_ws(run, rng, thorough):
     # ---- one TextBox
-    cases = corpus('ws-text') + gen_ws_text_cases(rng, 12000 if thorough else 5200)
+    cases = corpus('ws-text') + gen_ws_text_cases(rng, 12000 if thorough else 4000)
     outs = common.run_impl('impl_c08', 'ws_text', cases, chunksize=64)
     coq, kept = [], []
     for c, (st, o) in zip(cases, outs):
@@ -115,7 +116,7 @@ def stream_ws(run, rng, thorough):
         run.oblige('corr:ws-text', False, str(exc))
     # ---- threading over the children of a box
     cases = corpus('ws-tree')
-    while len(cases) < (8000 if thorough else 2500):
+    while len(cases) < (8000 if thorough else 1800):
         pws = rng.choice(WS) if rng.random() < .3 else 'normal'
         cases.append(dict(pflow=rng.random() < .75, run=False, f=rng.random() < .3,
                           kids=[gen_ws_node(rng, 0, pws) for _ in range(rng.choice([1, 2, 3, 4, 5]))]))
@@ -342,6 +343,113 @@ def stream_tables(run, rng, thorough):
         run.oblige('corr:table-slots', False, str(exc))
 
 
+# ================================================================== 3. fix-ups, direct calls
+
+KIND_OF = {'LineBox': 'KLine', 'BlockBox': 'KBlock', 'InlineBox': 'KInline', 'InlineBlockBox': 'KInlineBlock', 'TableBox': 'KTable',
+           'InlineTableBox': 'KInlineTable', 'FlexBox': 'KFlex', 'InlineFlexBox': 'KInlineFlex', 'GridBox': 'KGrid',
+           'InlineGridBox': 'KInlineGrid', 'TableRowBox': 'KRow', 'TableRowGroupBox': 'KRowGroup', 'TableColumnBox': 'KCol',
+           'TableColumnGroupBox': 'KColGroup', 'TableCellBox': 'KCell', 'TableCaptionBox': 'KCaption', 'TextBox': 'KText'}
+ATB_KINDS = ['BlockBox', 'BlockBox', 'InlineBox', 'InlineBox', 'InlineBlockBox', 'TableBox', 'InlineTableBox', 'FlexBox',
+             'TableRowBox', 'TableRowBox', 'TableRowGroupBox', 'TableRowGroupBox', 'TableColumnBox', 'TableColumnGroupBox',
+             'TableCellBox', 'TableCellBox', 'TableCaptionBox', 'TextBox', 'TextBox', 'TextBox']
+
+
+def box_term(t, n=[0]):
+    kind, a, kids = t
+    return '(B %s (mkA %s %s false false %s %s %s %d %s 0) [%s])' % (
+        KIND_OF[kind], bl(a.get('flow', True)), bl(a.get('abs', False)), bl(a.get('empty', False)), bl(a.get('space', False)),
+        bl(a.get('wsonly', False) or a.get('space', False) or a.get('empty', False)), a.get('grp', 0), bl(a.get('capbot', False)),
+        ';'.join(box_term(k) for k in kids))
+
+
+def gen_atb_tree(rng, depth, parent=None):
+    kind = rng.choice(ATB_KINDS)
+    if parent in ('TableBox', 'InlineTableBox', 'TableRowGroupBox', 'TableRowBox') and rng.random() < .5:
+        kind = rng.choice(['TableRowBox', 'TableCellBox', 'TableRowGroupBox', 'TextBox', 'TableCaptionBox', 'TableColumnBox'])
+    a = {}
+    if kind == 'TextBox':
+        if rng.random() < .6:
+            a['wsonly'] = True
+        return [kind, a, []]
+    if rng.random() < .1:
+        a['flow'] = False
+        if rng.random() < .5:
+            a['abs'] = True
+    if kind == 'TableRowGroupBox':
+        a['grp'] = rng.choice([0, 0, 1, 2])
+    if kind == 'TableCaptionBox':
+        a['capbot'] = rng.random() < .4
+    kids = [] if depth >= 3 else [gen_atb_tree(rng, depth + 1, kind) for _ in range(rng.choice([0, 1, 2, 3, 4]))]
+    return [kind, a, kids]
+
+
+def gen_iib_tree(rng, depth, root=False):
+    kind = 'BlockBox' if root else rng.choice(['BlockBox', 'InlineBox', 'InlineBox', 'InlineBlockBox', 'TextBox', 'TextBox', 'TextBox'])
+    a = {}
+    if kind == 'TextBox':
+        r = rng.random()
+        if r < .15:
+            a['empty'] = True
+        elif r < .4:
+            a['space'] = True
+        return [kind, a, []]
+    if not root and rng.random() < .2:
+        a['flow'] = False
+        if rng.random() < .5:
+            a['abs'] = True
+    kids = [] if depth >= 3 else [gen_iib_tree(rng, depth + 1) for _ in range(rng.choice([0, 1, 2, 3, 5]))]
+    return [kind, a, kids]
+
+
+def gen_bii_tree(rng):
+    def inl(depth):
+        r = rng.random()
+        if depth >= 3 or r < .35:
+            return ['TextBox', {}, []]
+        if r < .7:
+            return ['InlineBox', {}, [inl(depth + 1) for _ in range(rng.choice([0, 1, 2, 3]))]]
+        if r < .8:
+            return ['InlineBlockBox', {}, []]
+        a = {}
+        if rng.random() < .25:
+            a = {'flow': False, 'abs': rng.random() < .5}
+        return ['BlockBox', a, []]
+    return ['BlockBox', {}, [['LineBox', {}, [inl(0) for _ in range(rng.choice([1, 2, 3, 4]))]]]]
+
+
+def stream_fixups(run, rng, thorough):
+    for name, gen, fn, judge in (('fixup-tables', lambda r, d: ['BlockBox', {}, [gen_atb_tree(r, 1) for _ in range(r.choice([1, 2, 3]))]],
+                                  'fix_atb', 'atb_judge'),
+                                 ('fixup-inline-in-block', lambda r, d: gen_iib_tree(r, d, True), 'fix_iib', 'iib_judge'),
+                                 ('fixup-block-in-inline', lambda r, d: gen_bii_tree(r), 'fix_bii', 'bii_judge')):
+        cases = [dict(tree=c) for c in corpus(name)]
+        while len(cases) < (4000 if thorough else 700):
+            cases.append(dict(tree=gen(rng, 0)))
+        outs = common.run_impl('impl_c08', fn, cases, chunksize=16)
+        coq, kept = [], []
+        for c, (st, o) in zip(cases, outs):
+            if st != 'ok':
+                run.fail('%s raised %s' % (fn, o and o.get('site')), {'stream': name, 'case': c, 'outcome': o},
+                         signature='crash:%s' % (o and o.get('site'),))
+                continue
+            coq.append('(%s, %s)' % (box_term(c['tree']), tree_term(o)))
+            kept.append((c, o))
+        try:
+            masks = common.eval_cases('c08' + judge, PRE_FIX, 'box * tree', coq, judge, per_file=max(60, len(coq) // 15 + 1))
+            mism = [(c, o) for (c, o), m in zip(kept, masks) if m & 1]
+            run.oblige('corr:%s(%s on synthetic boxes vs the model)' % (name, fn), not mism, 'first: %s' % mism[:1])
+            for (c, o), m in zip(kept, masks):
+                if m & 2:
+                    run.fail('the output of %s violates its clause of spec_wf_tree' % fn, {'stream': name, 'case': c, 'impl': o},
+                             signature='fixup-spec:' + name)
+                    break
+            run.count(name, len(kept), [json.dumps(c) for c, _ in kept], samples=[kept[0][0]])
+            run.stream_info(name, rule='random box trees (depth <= 4) of real box objects: every parent class incl. stray table parts, '
+                            'white-space-only text, out-of-flow and absolutely positioned boxes; the real function is called on them')
+        except RuntimeError as exc:
+            run.oblige('corr:%s' % name, False, str(exc))
+
+
 # ================================================================== 4. display / float / position -> box class
 
 DISPLAYS = {
@@ -545,7 +653,7 @@ def to_html(body):
                 rules.append('#%s::%s{content:%s;display:%s}' % (e['id'], which, css_str(e[which]['content']), e[which]['display']))
         return '<div id=%s%s style="%s">%s</div>' % (e['id'], at, ';'.join(st), ''.join(el(k) for k in e['kids']))
     inner = ''.join(el(e) for e in body)
-    return ('<style>@page{size:1600px 100000px;margin:0}body{margin:0;font-family:weasyprint;font-size:10px;line-height:10px}'
+    return ('<style>@page{size:1000px 100000px;margin:0}body{margin:0;font-family:weasyprint;font-size:10px;line-height:10px}'
             '%s</style>%s' % (''.join(rules), inner))
 
 
@@ -565,11 +673,11 @@ def computed_display(e):
 
 
 def ref_words(body):
-    """words that must reach the page, in document order; second result: an order-changing display is present.
-    Text nodes separated only by elements that generate no box are one run of text."""
-    out, reorder = [], [False]
+    """{element id (or id::before / ::after, or 'body'): words of the text directly inside it, in order} -- what must
+    reach the page.  Text nodes separated only by elements that generate no box are one run of text."""
+    out = {}
 
-    def seq(kids):
+    def seq(key, kids):
         buf = ''
         for k in kids:
             if isinstance(k, str):
@@ -578,23 +686,58 @@ def ref_words(body):
             d = computed_display(k)
             if d == 'none':
                 continue
-            out.extend(buf.split())
+            out.setdefault(key, []).extend(buf.split())
             buf = ''
             el(k, d)
-        out.extend(buf.split())
+        out.setdefault(key, []).extend(buf.split())
 
     def el(e, d):
         if d in ('table-column', 'table-column-group'):
             return
-        if d in REORDERING:
-            reorder[0] = True
-        if e['before'] and e['before']['display'] != 'none':
-            out.extend(e['before']['content'].split())
-        seq(e['kids'])
-        if e['after'] and e['after']['display'] != 'none':
-            out.extend(e['after']['content'].split())
-    seq(body)
-    return out, reorder[0]
+        for which in ('before', 'after'):
+            if e[which] and e[which]['display'] != 'none' and e[which]['content'].split():
+                out[e['id'] + '::' + which] = e[which]['content'].split()
+        seq(e['id'], e['kids'])
+    seq('body', body)
+    return {k: v for k, v in out.items() if v}
+
+
+def lost_before_float(body, missing):
+    """decidable precondition of the listed layout finding SIG_LOST_FLOAT: every missing word is the last word of a
+    text node that ends without white space right before a floated sibling, or lies inside such a float"""
+    ok = set()
+
+    def inside(e):
+        if isinstance(e, str):
+            ok.update(e.split())
+            return
+        for w in ('before', 'after'):
+            if e[w]:
+                ok.update(e[w]['content'].split())
+        for k in e['kids']:
+            inside(k)
+
+    def walk(kids):
+        for i, k in enumerate(kids):
+            if isinstance(k, str):
+                nxt = kids[i + 1] if i + 1 < len(kids) else None
+                if isinstance(nxt, dict) and nxt['float'] != 'none' and nxt['display'] != 'none' and k.split() and not k[-1].isspace():
+                    ok.add(k.split()[-1])
+                    inside(nxt)
+            else:
+                walk(k['kids'])
+    walk(body)
+    return bool(missing) and all(w in ok for w in missing)
+
+
+def words_diff(ref, got):
+    """None or (missing, extra, keys whose words differ)"""
+    got = {k: [w.lower() for w in v] for k, v in got.items()}
+    if got == ref:
+        return None
+    a = Counter(w for v in ref.values() for w in v)
+    b = Counter(w for v in got.values() for w in v)
+    return (sorted((a - b).elements()), sorted((b - a).elements()), sorted(k for k in set(ref) | set(got) if ref.get(k) != got.get(k)))
 
 
 # ---- reference white-space processor of an inline formatting context (CSS Text 3, 4.1.1 + 4.1.2 at the line ends)
@@ -819,15 +962,13 @@ def run_docs(run, stream, docs, render):
         for t in pre['tables']:
             tab_recs.append((t, di))
         # ---- text, right after build_formatting_structure
-        words, reorder = ref_words(body)
-        got = [w.lower() for w in pre['words']]
-        if (sorted(got) != sorted(words)) if reorder else (got != words):
-            missing = list((Counter(words) - Counter(got)).elements())
-            extra = list((Counter(got) - Counter(words)).elements())
-            run.fail('text of the document does not reach the box tree unchanged (missing %s, extra %s%s)'
-                     % (missing[:4], extra[:4], '' if missing or extra else ', order differs'),
-                     {'stream': stream, 'html': html, 'stage': 'build', 'missing': missing, 'extra': extra,
-                      'expected': words, 'got': got}, signature='text-lost:build')
+        words = ref_words(body)
+        wd = words_diff(words, pre['words'])
+        if wd:
+            run.fail('text of the document does not reach the box tree unchanged: missing %s, extra %s, elements %s'
+                     % (wd[0][:4], wd[1][:4], wd[2][:4]),
+                     {'stream': stream, 'html': html, 'stage': 'build', 'missing': wd[0], 'extra': wd[1], 'elements': wd[2],
+                      'expected': words}, signature='text-lost:build')
         for ifc in pre['ifcs']:
             stats['ifcs'] += 1
             bad = judge_ifc(ifc)
@@ -836,10 +977,14 @@ def run_docs(run, stream, docs, render):
             kind, e, a = bad
             if kind == 'unprocessed':
                 stats['known:' + SIG_GEN_BLOCK] += 1
+                if stats['known:' + SIG_GEN_BLOCK] > 3:
+                    continue
                 run.fail('text of a ::before/::after box that is not inline never goes through process_whitespace / '
                          'process_text_transform: %r' % (a,), {'stream': stream, 'html': html, 'ifc': ifc}, signature=SIG_GEN_BLOCK)
             elif kind == 'text-known':
                 stats['known:' + SIG_WS_OUTFLOW] += 1
+                if stats['known:' + SIG_WS_OUTFLOW] > 3:
+                    continue
                 run.fail('inline content of an out-of-flow box (%s): collapsible spaces are not collapsed across inline '
                          'boxes: expected %r, box tree has %r' % (ifc['host'], e, a),
                          {'stream': stream, 'html': html, 'ifc': ifc, 'expected': e, 'got': a}, signature=SIG_WS_OUTFLOW)
@@ -864,28 +1009,17 @@ def run_docs(run, stream, docs, render):
                 wf_cases.append('(true, %s)' % tree_term(t))
                 wf_ref.append((di, 'post'))
                 stats['boxes'] += tree_size(t)
-            got = [w.lower() for w in post['words']]
-            if (sorted(got) != sorted(words)) if reorder else (got != words):
-                missing = list((Counter(words) - Counter(got)).elements())
-                extra = list((Counter(got) - Counter(words)).elements())
-                run.fail('rendered text differs from the text of the document (missing %s, extra %s%s)'
-                         % (missing[:4], extra[:4], '' if missing or extra else ', order differs'),
-                         {'stream': stream, 'html': html, 'stage': 'layout', 'missing': missing, 'extra': extra},
-                         signature='text-lost:layout')
-            # each block: words and the separation between them as right after the build
-            pre_blocks = [skel(phase2([[c, c == ' ' and it[2] in COLLAPSING] for it in ifc['items'] if it[0] == 't' for c in it[4]]
-                                      if not any(it[0] == 'a' for it in ifc['items']) else
-                                      sum(([[c, False] for c in it[4]] if it[0] == 't' else [[' ', False]] for it in ifc['items']), [])))
-                          for ifc in pre['ifcs']]
-            pre_blocks = [b.lower() for b in pre_blocks if b]
-            post_blocks = [skel(' '.join(lines)).lower() for lines in post['blocks']]
-            post_blocks = [b for b in post_blocks if b]
-            if (sorted(pre_blocks) != sorted(post_blocks)) if reorder else (pre_blocks != post_blocks):
-                d1 = list((Counter(pre_blocks) - Counter(post_blocks)).elements())
-                d2 = list((Counter(post_blocks) - Counter(pre_blocks)).elements())
-                run.fail('the text of a block after layout is not the text of its inline formatting context: %s vs %s'
-                         % (d1[:2], d2[:2]), {'stream': stream, 'html': html, 'built': d1, 'laid_out': d2},
-                         signature='text:block-after-layout')
+            wd = words_diff(words, post['words'])
+            if wd and not wd[1] and lost_before_float(body, wd[0]):
+                stats['known:' + SIG_LOST_FLOAT] += 1
+                run.fail('layout loses the end of a word (and the float) when a float sits inside the word and the line '
+                         'is broken before it: missing %s' % (wd[0][:4],),
+                         {'stream': stream, 'html': html, 'stage': 'layout', 'missing': wd[0]}, signature=SIG_LOST_FLOAT)
+            elif wd:
+                run.fail('rendered text differs from the text of the document: missing %s, extra %s, elements %s'
+                         % (wd[0][:4], wd[1][:4], wd[2][:4]),
+                         {'stream': stream, 'html': html, 'stage': 'layout', 'missing': wd[0], 'extra': wd[1], 'elements': wd[2],
+                          'expected': words}, signature='text-lost:layout')
     # ---- well-formedness, in Coq
     try:
         masks = common.eval_cases('c08wf' + stream.replace('-', ''), PRE_TREE, 'bool * tree', wf_cases, 'wf_judge',
@@ -965,7 +1099,7 @@ def probes(run):
 def stream_documents(run, rng, thorough):
     probes(run)
     feats = Counter()
-    for stream, n in (('doc-build', 1500 if thorough else 420), ('doc-render', 2500 if thorough else 520)):
+    for stream, n in (('doc-build', 2500 if thorough else 320), ('doc-render', 4000 if thorough else 380)):
         prof = PROFILES['build-any' if stream == 'doc-build' else 'render']
         g = Gen(rng, prof)
         docs = [(c['body'], to_html(c['body'])) for c in corpus(stream)]
@@ -984,7 +1118,7 @@ def stream_documents(run, rng, thorough):
         run.count(stream, len(docs), [h for _, h in docs], samples=[docs[0][1][:700]])
         run.stream_info(stream, rule=('random DOM trees depth <= 5: every element takes any display value in any nesting, float / '
                                       'position, white-space, text-transform, colspan/rowspan (0..4), ::before/::after with content; '
-                                      'text with spaces, tabs, newlines and unique words; page 1600x100000px. ' +
+                                      'text with spaces, tabs, newlines and unique words; page 1000x100000px. ' +
                                       ('Judged right after build_formatting_structure.' if stream == 'doc-build' else
                                        'Judged after build_formatting_structure and after layout; shaped around known crash sites.')),
                         **{k: v for k, v in stats.items()})
@@ -1006,7 +1140,8 @@ def make_render_safe(body):
 def check(run):
     rng = random.Random(run.seed * 7919 + 8)
     thorough = run.tier == 'thorough'
-    common.prove(run, 'C08', ['model/C08Whitespace.vo', 'model/C08Table.vo', 'model/C08Display.vo', 'model/C08Tree.vo'])
+    common.prove(run, 'C08', ['model/C08Whitespace.vo', 'model/C08Table.vo', 'model/C08Display.vo', 'model/C08Tree.vo',
+                             'model/C08Fixups.vo'])
     run.trusted += ['Coq 8.16.1 kernel (coqc); vm_compute for the cases.v evaluation',
                     'hand-written models coq/model/C08*.v: tied to /repo by the corr:* streams of every run',
                     'harness/p_c08.py reference white-space processor of an inline formatting context (phase1/phase2, from CSS Text 3 4.1) '
@@ -1018,6 +1153,7 @@ def check(run):
                         'judged by spec_wf_tree, not compared with the fix-up models']
     stream_ws(run, rng, thorough)
     stream_tables(run, rng, thorough)
+    stream_fixups(run, rng, thorough)
     stream_display(run, rng, thorough)
     stream_documents(run, rng, thorough)
 
@@ -1043,10 +1179,12 @@ def replay(data):
         cases = ['(false, %s)' % tree_term(o['pre']['tree'])] + ['(true, %s)' % tree_term(t) for t in o.get('post', {}).get('trees', [])]
         masks = common.eval_cases('c08replay', PRE_TREE, 'bool * tree', cases, 'wf_judge')
         bad += [('wf', m) for m in masks if m]
-        if d.get('expected') is not None and d.get('stage') == 'build':
-            got = [w.lower() for w in o['pre']['words']]
-            if sorted(got) != sorted(d['expected']):
-                bad.append(('words', got))
+        if d.get('expected') is not None:
+            for stage in ('pre', 'post'):
+                if stage in o:
+                    wd = words_diff(d['expected'], o[stage]['words'])
+                    if wd:
+                        bad.append(('words', stage, wd))
         print('replay:', bad[:5])
         return 1 if bad else 0
     if stream in ('table-slots', 'table-probe'):
